@@ -118,7 +118,15 @@ func (w *icsWorld) setup() bool {
 	trace := transfertypes.ParseDenomTrace(transfertypes.GetPrefixedDenom(w.path.EndpointB.ChannelConfig.PortID, w.path.EndpointB.ChannelID, sdk.DefaultBondDenom))
 	w.voucher = trace.IBCDenom()
 	w.userB = w.b.SenderAccount.GetAddress()
+	w.fix()
 	return true
+}
+
+// fix: the coordinator's headers carry no proposer address, which the EVM needs for its coinbase; it is
+// re-set before every step because the coordinator drops it with each new block.
+func (w *icsWorld) fix() {
+	w.a.CurrentHeader.ProposerAddress = w.a.Vals.Proposer.Address
+	w.b.CurrentHeader.ProposerAddress = w.b.Vals.Proposer.Address
 }
 
 func (w *icsWorld) pair() (aggregatetypes.TokenPair, bool) {
@@ -131,6 +139,7 @@ func (w *icsWorld) pair() (aggregatetypes.TokenPair, bool) {
 }
 
 func (w *icsWorld) apply(op kernel.Op) {
+	w.fix()
 	switch op.K {
 	case "transfer":
 		w.transfer(op)
@@ -145,11 +154,14 @@ func (w *icsWorld) apply(op kernel.Op) {
 		}
 		md := banktypes.Metadata{Description: "ibc voucher", Base: w.voucher, Display: w.voucher, Name: "stake channel-0", Symbol: "ibcSTAKE",
 			DenomUnits: []*banktypes.DenomUnit{{Denom: w.voucher, Exponent: 0}}}
-		if _, err := w.bApp.AggregateKeeper.RegisterCoin(ctx, md); err != nil {
+		cctx, write := ctx.CacheContext()
+		if _, err := w.bApp.AggregateKeeper.RegisterCoin(cctx, md); err != nil {
 			w.rec.Logf("register failed: %v", err)
 			return
 		}
+		write()
 		w.coord.CommitBlock(w.b)
+		w.fix()
 		w.registered, w.pairOn = true, true
 		w.rec.Fault("gov.interleave")
 		w.rec.Logf("voucher registered as coin pair")
@@ -255,6 +267,7 @@ func (w *icsWorld) receive(packet channeltypes.Packet, amt sdk.Int, kind string,
 		return
 	}
 	// differential oracle: what the wrapped transfer application alone answers on the same state
+	w.fix()
 	cctx, _ := w.b.GetContext().CacheContext()
 	wantAck := ibctransfer.NewIBCModule(w.bApp.IBCTransferKeeper).OnRecvPacket(cctx, packet, w.userB)
 	preV, preM, preT := w.balances()
@@ -262,12 +275,14 @@ func (w *icsWorld) receive(packet channeltypes.Packet, amt sdk.Int, kind string,
 	packetKey := fmt.Sprintf("commitments/ports/%s/channels/%s/sequences/%d", packet.GetSourcePort(), packet.GetSourceChannel(), packet.GetSequence())
 	proof, proofHeight := w.path.EndpointA.QueryProof([]byte(packetKey))
 	recvMsg := channeltypes.NewMsgRecvPacket(packet, proof, proofHeight, w.userB.String())
+	w.fix()
 	_, err := w.b.SendMsgs(recvMsg)
 	if err != nil {
 		w.rec.HarnessFail("MsgRecvPacket rejected: " + err.Error())
 		return
 	}
 	_ = w.path.EndpointA.UpdateClient()
+	w.fix()
 	postV, postM, postT := w.balances()
 	stored, found := w.bApp.IBCKeeper.ChannelKeeper.GetPacketAcknowledgement(w.b.GetContext(), packet.GetDestPort(), packet.GetDestChannel(), packet.GetSequence())
 	w.rec.Sched(fmt.Sprintf("recv:%s:reg=%v:on=%v:agg=%v:ack=%v", kind, w.registered, w.pairOn, w.aggOn, wantAck != nil && wantAck.Success()))
